@@ -48,6 +48,9 @@ def reference(res, src, env=None, limit=5.0, name="__main__"):
         return None
     ref, _ = observe.run(code, "exec", env() if env else None, limit=limit, name=name)
     if ref.outcome[0] == "timeout":
+        # a loaded worker must not silently shrink the space: try again with ten times the budget
+        ref, _ = observe.run(code, "exec", env() if env else None, limit=limit * 10, name=name)
+    if ref.outcome[0] == "timeout":
         res.c["skipped:reference_timeout"] += 1
         return None
     if ref.outcome[0] != "ok":
